@@ -56,8 +56,8 @@ def probe_results():
     return res
 
 
-def value_harness(modes, quick, thorough, name="value"):
-    flags = ["-O1", "-g"] + ["-D" + m for m, ok in sorted(probe_results().items()) if ok]
+def value_harness(modes, quick, thorough, name="value", extra_flags=None, opt=None):
+    flags = (opt or ["-O1", "-g"]) + (extra_flags or []) + ["-D" + m for m, ok in sorted(probe_results().items()) if ok]
     return {"name": name, "src": "value.cpp", "driver": "mmdrv_value", "flags": flags, "modes": modes, "programs": {"quick": quick, "thorough": thorough}}
 
 
